@@ -56,6 +56,11 @@ CHECKS = {
          "Every program (all definition sequences up to a length bound over a call alphabet with failing/flaky/optional/cyclic factory shapes, plus seeded random programs on four construction paths incl. the goatapp mock application) is run against the real container and against a model written from the statement; the event traces (ok/error class, instance identity, per-factory invocation counts, acceptance of definitions) must match, and model-independent checks (identity never changes, no re-run after an instance, explicit beats default, late definitions refused, cycles end in an error) run on the container side. Held on the programs executed.",
          "single goroutine (the statement does not promise concurrent use); duplicate same-class definitions follow the implementation's accept/refuse answer",
          "DESIGN.md §5 C10"),
+ "C11": ("exploration",
+         "event-log monitor: a first-registered listener records every lifecycle event of a scope tree, every call is logged at call and return, an offline checker decides ordering / commit-xor-rollback / waits-for-children / error reporting; bounded-exhaustive trees plus seeded concurrent scripts; goroutine-dump diagnosis for waits",
+         "Scope trees (shared and isolated children, gio IO contexts, depth and fan-out up to 3) are driven by scripts of AddTasks/DoneTask/AppendError/Kill/Stop/Close/Wait issued from separate goroutines; the first listener of the root for each of the eleven events records (sequence, event, closing scope). Offline, per closed scope: exactly before-close, one triple (rollback required if an error append had returned before the wait ended, commit if none was ever called, either if they overlapped), after-close, inside the one Close that returns; the triple comes after every DoneTask call and every child's after-close; Close returns an error iff the context holds one; a second Close panics and adds no event; shared child failures reach the parent, isolated ones do not, isolated children end when an ancestor's context ends. All trees of up to 3 scopes with one disturbance, one task, every close order and single/double Close are enumerated on a fixed schedule. Held on the trees, scripts and schedules produced.",
+         "children are created before the script starts; signals racing with the very start of Close on the same scope are not generated; race reports are observations",
+         "DESIGN.md §5 C11"),
  "C12": ("exploration",
          "stress workload with recover/exit supervision and conservation oracle (every appended unique error retained exactly once), bounded-progress check on parent Wait, Go race detector",
          "2..64 goroutines released together issue PRNG-chosen AppendError(unique)/Kill/Stop/IsDone/Err/Errors/Done on plain contexts, isolated contexts, scopes and shared/isolated child scopes under GOMAXPROCS 1/2/4/16; after the join every appended error must be retained exactly once (plus one context.Canceled per Kill), Err/Wait/Close must report an error iff something was appended, Done must be closed, a shared child must fail its parent and an isolated one must not. Children are created and closed while and after the parent ends (also through real terminal commands on a killed IO context): no panic, parent Wait returns. Race reports in contextscope and scope decide. Held on the schedules produced.",
